@@ -422,9 +422,14 @@ def pdag_rules(rep, prog):
 
 
 def run(prog, rep, tier):
+    node_label_truthiness(rep, prog, [U + n_ for n_ in ['imec', 'dag_to_icpdag', 'pdag_to_icpdag', 'maximally_orient', 'rule_1', 'rule_2', 'rule_3', 'rule_4', 'chain_graph_IMEC', 'pdag_to_dag']])
+    isin_over_sets(rep, prog, [U + n_ for n_ in ['imec', 'dag_to_icpdag', 'pdag_to_icpdag', 'maximally_orient', 'rule_1', 'rule_2', 'rule_3', 'rule_4', 'chain_graph_IMEC', 'pdag_to_dag']])
     pattern_entries(prog, rep, [(U + "imec", "A"), (U + "dag_to_icpdag", "G")])
     dag_gate(rep, prog, U + "imec", "A", rule="GATE")
     imec_rules(rep, prog)
+    # dag_to_icpdag starts from dag_to_cpdag(G): the CPDAG construction is part of this property
+    from .C08 import cpdag_core
+    cpdag_core(rep, prog)
     # the essential graph is returned under `is_consistent_extension(G, P)`, which compares sets of v-structure triples
     from .C16 import vstructure_rules
     vstructure_rules(rep, prog)
